@@ -5,6 +5,7 @@ package rawcql
 
 import (
 	"bytes"
+	"crypto/tls"
 	"encoding/binary"
 	"errors"
 	"fmt"
@@ -75,12 +76,27 @@ func (c *Client) SetOnFrame(f func(*Frame)) { c.onFrame.Store(f) }
 var clientSeq int32
 
 func Dial(addr string, version primitive.ProtocolVersion, log *mon.Log) (*Client, error) {
+	return DialTLS(addr, version, log, nil)
+}
+
+// DialTLS is Dial through a TLS client handshake (cfg != nil), for proxies that listen with --proxy-cert-file.
+func DialTLS(addr string, version primitive.ProtocolVersion, log *mon.Log, cfg *tls.Config) (*Client, error) {
 	nc, err := net.DialTimeout("tcp", addr, 10*time.Second)
 	if err != nil {
 		return nil, err
 	}
 	if t, ok := nc.(*net.TCPConn); ok {
 		_ = t.SetNoDelay(true)
+	}
+	if cfg != nil {
+		tc := tls.Client(nc, cfg)
+		_ = tc.SetDeadline(time.Now().Add(10 * time.Second))
+		if err := tc.Handshake(); err != nil {
+			_ = nc.Close()
+			return nil, err
+		}
+		_ = tc.SetDeadline(time.Time{})
+		nc = tc
 	}
 	c := &Client{ID: int(atomic.AddInt32(&clientSeq, 1)), nc: nc, log: log, Version: version, waiters: map[int16][]chan *Frame{},
 		byStr: map[int16][]*Frame{}, closed: make(chan struct{})}
